@@ -37,7 +37,11 @@ WellFormed   == l = 0 \/ /\ R.err = ""
                                                   ELSE R.c \in Files /\ R.acq = Len(R.c.entries)
                                           ELSE C \in Cases /\ R.acq = 1
 \* exactly one request reached a server
-TArrived     == l = 0 \/ IF TunnelRefused(C) THEN TunnelRefusedOK(C, O, R.samples) ELSE Arrived(C, O)
+TArrived     == l = 0 \/ IF TunnelRefused(C) THEN TunnelRefusedOK(C, O, R.samples)
+                         ELSE IF H2Mismatch(C) THEN H2MismatchOK(C, O, R.samples, R.panic)
+                         ELSE Arrived(C, O) /\ R.panic = ""
+\* HTTP/2.0 exactly when the http2 gun meets a target that offers it, HTTP/1.1 otherwise
+TProto       == l = 0 \/ O.n = 0 \/ ProtoOK(C, O)
 \* connect gun: every CONNECT names the gun's target, over TLS iff connect-ssl; other guns never send one
 TConnect     == l = 0 \/ ConnectOK(C, O)
 \* header/date middleware: exactly one stamped value, and its instant lies between the driver's clock readings
